@@ -21,11 +21,31 @@ from vlib import Evidence, Verdict, tlc, log
 
 TIERS = {
     "quick": dict(cfg="MC_Bisync_quick.cfg", tcfg="BisyncTrace_quick.cfg", editable="low", C=2, alt_every=8, fault_states=120, max_states=None,
-                  extra=[dict(cfg="MC_Bisync_two.cfg", tcfg="BisyncTrace_two.cfg", editable="base", C=2, alt_every=10, max_states=None)]),
+                  extra=[dict(cfg="MC_Bisync_two.cfg", tcfg="BisyncTrace_two.cfg", editable="base", C=2, alt_every=10, max_states=None),
+                         dict(cfg="MC_Bisync_quick.cfg", tcfg="BisyncTrace_quick.cfg", editable="low", C=2, alt_every=10, max_states=None, link="seed")]),
     "thorough": dict(cfg="MC_Bisync_thorough.cfg", tcfg="BisyncTrace_quick.cfg", editable="all", C=2, alt_every=4, fault_states=3000, max_states=None,
                      extra=[dict(cfg="MC_Bisync_two.cfg", tcfg="BisyncTrace_two.cfg", editable="base", C=2, alt_every=4, max_states=None),
-                            dict(cfg="MC_Bisync_c3.cfg", tcfg="BisyncTrace_c3.cfg", editable="low", C=3, alt_every=6, max_states=None)]),
+                            dict(cfg="MC_Bisync_c3.cfg", tcfg="BisyncTrace_c3.cfg", editable="low", C=3, alt_every=6, max_states=None),
+                            dict(cfg="MC_Bisync_quick.cfg", tcfg="BisyncTrace_quick.cfg", editable="low", C=2, alt_every=4, max_states=None, link="low"),
+                            dict(cfg="MC_Bisync_quick.cfg", tcfg="BisyncTrace_quick.cfg", editable="low", C=2, alt_every=4, max_states=None, link="high")]),
 }
+
+
+def link_contents(bins, work, low):
+    """two versions of which one is a SYMBOLIC LINK (its target string is what bisync fingerprints); ids ascend with BLAKE3.
+    The target '../tgt-N' resolves, from either root, to a file holding the other version's bytes."""
+    base = json.loads(vlib.run_cmd([bins["vh_lib"], "gen-contents", "2"]).stdout)
+    other = base[1] if low else base[0]
+    tmp = os.path.join(work, "linkname")
+    for n in range(4000):
+        target = f"../tgt-{n}"
+        with open(tmp, "wb") as f:
+            f.write(target.encode())
+        hx = vlib.run_cmd([bins["vh_lib"], "b3", tmp]).stdout.decode().strip()
+        if (low and hx < other["hex"] and hx[0] == "0") or (not low and hx > other["hex"]):
+            link = {"hex": hx, "text": target, "link": True, "deref": other["text"]}
+            return [link, other] if low else [other, link]
+    raise vlib.ToolError("no link target with a suitable hash found")
 
 
 def explore_universe(pid, U, copia, bins, work, tag, ev, vd):
@@ -36,7 +56,11 @@ def explore_universe(pid, U, copia, bins, work, tag, ev, vd):
     if r.violation:
         vd.nonconformance(f"TLC: Bisync invariant {r.violation} fails in the model ({U['cfg']})")
     pathlist = json.load(open(ppath))
-    contents = json.loads(vlib.run_cmd([bins["vh_lib"], "gen-contents", str(U["C"])]).stdout)
+    if U.get("link"):
+        low = (vlib.seed() % 2 == 1) if U["link"] == "seed" else (U["link"] == "low")
+        contents = link_contents(bins, work, low)
+    else:
+        contents = json.loads(vlib.run_cmd([bins["vh_lib"], "gen-contents", str(U["C"])]).stdout)
     uni = bg.Universe(pathlist, contents, [])
     if U["editable"] == "low":
         editable = [i for i, q in enumerate(uni.paths) if len(q) == 1 or (len(q) == 2 and q[1] == (1, 0))]
